@@ -63,7 +63,13 @@ pub fn stroke_rect<T: Copy>(mut mask: NdTensorViewMut<T, 2>, rect: Rect, value: 
 }
 
 /// Fill all points inside `rect` with the value `value`.
+///
+/// Parts of `rect` that lie outside the image are ignored.
 pub fn fill_rect<T: Copy>(mut mask: NdTensorViewMut<T, 2>, rect: Rect, value: T) {
+    let img_height = i32::try_from(mask.rows()).unwrap_or(i32::MAX);
+    let img_width = i32::try_from(mask.cols()).unwrap_or(i32::MAX);
+    let rect = rect.clamp(Rect::from_hw(img_height, img_width));
+
     for y in rect.top()..rect.bottom() {
         for x in rect.left()..rect.right() {
             mask[[y as usize, x as usize]] = value;
@@ -172,6 +178,9 @@ pub fn draw_line<T: Copy>(mut image: NdTensorViewMut<T, 2>, line: Line, value: T
         // in Pillow (https://pillow.readthedocs.io/en/stable/) used as a reference.
         let img_height: i32 = image.rows().try_into().unwrap();
         let img_width: i32 = image.cols().try_into().unwrap();
+        if img_height == 0 || img_width == 0 {
+            return;
+        }
 
         let start = clamp_to_bounds(line.start, img_height, img_width);
         let end = clamp_to_bounds(line.end, img_height, img_width);
@@ -195,6 +204,11 @@ pub fn draw_line<T: Copy>(mut image: NdTensorViewMut<T, 2>, line: Line, value: T
             .map(|c| Point::from_yx(c.y as i32, c.x as i32));
 
         for p in Polygon::new(corners).fill_iter() {
+            // Skip points above or to the left of the image. `get_mut` skips
+            // points below or to the right of it.
+            if p.y < 0 || p.x < 0 {
+                continue;
+            }
             if let Some(img_val) = image.get_mut(p.coord()) {
                 *img_val = value;
             }
